@@ -1,7 +1,7 @@
 """Self-validation of the reference models (run by setup and at the start of the checks that use them)."""
 import importlib, sys
 ok = True
-for name in ('stats', 'aes', 'des', 'mia', 'template', 'signal', 'preproc'):
+for name in ('stats', 'aes', 'des', 'mia', 'frac', 'signal', 'preproc'):
     try:
         m = importlib.import_module('mc.refs.' + name)
     except ModuleNotFoundError:
